@@ -1,6 +1,6 @@
 """C06 -- decoded views are faithful and supplied values read back unchanged."""
 from .common import run_progs, run_harvest, run_value_machine
-from .quoterlevel import run_quoter_level
+from .quoterlevel import run_quoter_level, run_unquoter_steps
 
 FINISH = dict(rule="R1 MC_Quoters Inv_C06_Decode / Inv_C06_ReadBack (unquoter model = Decode on every escape-token string); R2 "
                    "replay on the real unquoters; R3 random programs + raw escape-run URLs on both back ends, TLC evaluates "
@@ -11,6 +11,7 @@ FIELDS = ["str", "val", "raw_user", "user", "raw_password", "password", "raw_pat
 
 
 def run(out, sc, tier, seed):
+    run_unquoter_steps(out, sc, tier)
     run_quoter_level(out, sc, tier, seed, "C06", unq=True, bounds=({"charcore": 4} if tier == "thorough" else None))
     n = 10000 if tier == "quick" else 80000
     run_progs(out, sc, "C06", {"gen": "progs", "n": n, "seed": seed, "surrogate_p": 0.03, "fields": FIELDS,
